@@ -45,6 +45,8 @@ type HOp struct {
 	// sync fails) | "abort" (compactions disabled part-way).
 	Fault   string
 	AbortAt int
+	// NoRetry: a snapshot step that fails by injection is not retried at once
+	NoRetry bool
 }
 
 // Profile selects the operation mix and the oracles of a history run.
@@ -175,6 +177,10 @@ func GenHOp(t *rapid.T, pr *Profile, nshards int, label string, inWindow bool) H
 		}
 		if pr.Faults && rapid.IntRange(0, 5).Draw(t, label+".flt") == 0 {
 			o.Fault = rapid.SampledFrom([]string{"finishing", "fsync"}).Draw(t, label+".fk")
+			// half of the failed snapshots are not retried at once: the
+			// cache keeps the snapshot while the history goes on (further
+			// writes, deletes, reads) until a later snapshot step retries
+			o.NoRetry = rapid.Bool().Draw(t, label+".noretry")
 		}
 		return o
 	case "compact":
@@ -671,6 +677,10 @@ func (h *History) apply(i int, o HOp) {
 		if err != nil {
 			if injected {
 				run.Probe("snapshot-failed-by-injection")
+				if o.NoRetry {
+					run.Probe("failed-snapshot-left-in-cache")
+					return
+				}
 				// a retry must succeed and lose nothing
 				if err := sim.Snapshot(id); err != nil {
 					run.Fail("snapshot-retry-failed", "", "op%d: WriteSnapshot retry after injected error: %v", i, err)
